@@ -18,11 +18,10 @@ Require Import Grits.Base Grits.ModeDefs Grits.Modes Grits.STypes Grits.Forms Gr
 Fixpoint frag_form (f : form) : bool :=
   match f with
   | FSend _ _ _ | FSel _ _ _ | FClose _ | FCall _ _ _ | FCast _ _ => true
-  | FRecv _ _ _ k | FWait _ k | FShift _ _ k | FPrint _ k | FDrop _ k => frag_form k
+  | FRecv _ _ _ k | FWait _ k | FShift _ _ k | FPrint _ k | FDrop _ k | FSplit _ _ _ k => frag_form k
   | FCase _ bs => frag_brs bs
   | FNew _ b k => frag_form b && frag_form k
   | FFwd _ _ _ => true
-  | FSplit _ _ _ _ => false
   end
 with frag_brs (b : branches) : bool :=
   match b with
@@ -30,7 +29,7 @@ with frag_brs (b : branches) : bool :=
   | BrCons _ _ k r => frag_form k && frag_brs r
   end.
 
-(* no split anywhere, one provider name per process (hence no DUP), no assumed names *)
+(* every form; one provider name per top-level process; no assumed names *)
 Definition in_fragment (p : program) : Prop :=
   p_assumed p = [] /\
   Forall (fun pr => frag_form (pr_body pr) = true /\ exists n, pr_providers pr = [n]) (p_procs p) /\
@@ -195,7 +194,7 @@ Theorem progress_sync_run_partial p p' :
        exists k, own_chan pr k /\
          (action_of Sync (p_types p') pr = ARecv k \/
           exists m, action_of Sync (p_types p') pr = ASend k m /\ is_pos_rule (m_rule m) = true)) /\
-    ((forall k, (exists self pr, procs c !! self = Some pr /\ own_chan pr k) ->
+    ((forall k, (exists self pr, procs c !! self = Some pr /\ k ∈ cids_of (pr_provs pr)) ->
                 exists o, obj_in c o /\ k ∈ refs o) -> procs c = ∅).
 Proof.
   intros Ha Hf fuel pick c Hrun.
